@@ -280,4 +280,19 @@ def c11(run, ck):
                 assumptions=["thread schedules are whatever the OS produces"])
 
 
-PIPELINES = {"C11": c11, "C01": c01, "C13": c13, "C02": c02, "C18": c18, "C12": c12, "C10": c10, "C09": c09, "C03": c03, "C04": c04, "C05": c05, "C06": c06, "C07": c07, "C08": c08}
+def c19(run, ck):
+    run.model_check("MC_Ser", workers=1)
+    out = os.path.join(run.work, "ser.ndjson")
+    run.drive("ser", 8000 if run.thorough else 800, out)
+    verdicts, recs = run.validate(out, "Trace_Ser", cfg="Trace_Ser.cfg", parts=1, label="round trips")
+    def describe(rec, v):
+        text = rec.get("text", "")
+        kind = "nonfinite" if any(x in text for x in ("1.0/0.0", "0.0/0.0")) else "other"
+        return "%s|%s" % (v[3] if len(v) > 3 else "", kind)
+    simple_violations(run, ck, verdicts, recs, "ser", describe=describe)
+    return dict(rule="constant programs holding every value type (extreme integers, non-finite doubles, bytes, nested lists/maps, types, timestamps and durations, error constants) and every instruction, plus generated programs, "
+                     "x JSON and bincode x three bindings: serialization and deserialization succeed, source and parameters unchanged, same value or same error variant; variant coverage is checked by the specification",
+                assumptions=["byte-level encodings are not modelled: the specification models the variant numbering of the derived (de)serializers and judges recorded round trips"])
+
+
+PIPELINES = {"C19": c19, "C11": c11, "C01": c01, "C13": c13, "C02": c02, "C18": c18, "C12": c12, "C10": c10, "C09": c09, "C03": c03, "C04": c04, "C05": c05, "C06": c06, "C07": c07, "C08": c08}
